@@ -248,8 +248,11 @@ func c13(r *Run) {
 			if !ok {
 				continue
 			}
+			if srvClose.Recover != nil && ret.Block() == srvClose.Recover {
+				continue // the synthetic return after a recovered panic (present once the function has a defer)
+			}
 			nRet++
-			v := ret.Results[0]
+			v := seeThroughCell(ret.Results[0]) // a defer in the function spills the result into a cell
 			switch {
 			case isNilConst(v):
 				// the counter test must follow the scan of this round
@@ -278,6 +281,39 @@ func c13(r *Run) {
 						r.obW(fmt.Sprintf("C13.R3:ctx-err-only-on-done#%d", nRet), "ctx.Err() is returned only when ctx.Done() fired", srvClose, ret, wit, "guarded by the ctx.Done() case")
 					}
 				}
+			}
+		}
+		// the wait between two rounds always ends: its timed case is armed anew in every round (time.After, or a Timer that is
+		// created / Reset on every way back to the select) - a timer that fired once never fires again, and from the second round
+		// on only ctx.Done() would end the wait (for ever, with context.Background())
+		for _, ins := range allIns(srvClose) {
+			sel, ok := ins.(*ssa.Select)
+			if !ok {
+				continue
+			}
+			for k, st := range sel.States {
+				if st.Dir != types.RecvOnly {
+					continue
+				}
+				ch := st.Chan
+				if c, ok := ch.(*ssa.Call); ok {
+					if c.Call.IsInvoke() && c.Call.Method.Name() == "Done" {
+						continue
+					}
+					if f := c.Call.StaticCallee(); f != nil && f.Pkg != nil && f.Pkg.Pkg.Path() == "time" && (f.Name() == "After" || f.Name() == "Tick") {
+						r.ob(fmt.Sprintf("C13.R3:round-wait-is-rearmed#%d", k), "the timed case of Shutdown's wait is armed anew in every round", srvClose, sel, true, "time.After() evaluated per round", true)
+						continue
+					}
+				}
+				// a timer channel: every way from the select back to it passes NewTimer / Reset
+				isArm := func(i ssa.Instruction) bool {
+					f := calleeOf(i)
+					return f != nil && f.Pkg != nil && f.Pkg.Pkg.Path() == "time" && (f.Name() == "NewTimer" || f.Name() == "Reset" || f.Name() == "After")
+				}
+				ss := &Search{Fn: srvClose, Stop: isArm, NoInline: true}
+				wit := ss.Find([]Start{After(sel)}, isIns(sel), false)
+				r.Visited += ss.Visited
+				r.obW(fmt.Sprintf("C13.R3:round-wait-is-rearmed#%d", k), "the timed case of Shutdown's wait is armed anew in every round", srvClose, sel, wit, "NewTimer()/Reset() on every way back to the select")
 			}
 		}
 		// the scan: Close only idle (or non-gracefulExit) connections, count the others
